@@ -168,3 +168,51 @@ def subspace_minimum(K, b, vectors, Delta):
     z = Qb @ sol["s"]
     return {"z": z, "value": model(K, b, z), "reduced": sol, "basis": Qb, "Hr": Hr, "gr": gr,
             "rdiag_min": float(np.min(np.abs(np.diag(R)))) if R.size else 0.0}
+
+
+def _selftest():
+    """python -m mc.ref.trs_ref : closed forms and a dense brute force in 2-D (deterministic)."""
+    # hard case, closed form: A = diag(-1, 1), b = (0, 1), Delta = 1  ->  s = (+-sqrt(3)/2, -1/2), value -3/4
+    sol = more_sorensen(np.diag([-1.0, 1.0]), np.array([0.0, 1.0]), 1.0)
+    assert sol["kind"] == "hard" and abs(sol["value"] + 0.75) < 1e-14 and abs(abs(sol["s"][0]) - np.sqrt(0.75)) < 1e-14
+    # interior: A = diag(2, 4), b = (2, 4) -> s = (-1, -1), value -3
+    sol = more_sorensen(np.diag([2.0, 4.0]), np.array([2.0, 4.0]), 10.0)
+    assert sol["kind"] == "interior" and abs(sol["value"] + 3.0) < 1e-14
+    # zero matrix: s = -Delta b/|b|
+    sol = more_sorensen(np.zeros((2, 2)), np.array([3.0, 4.0]), 2.0)
+    assert np.allclose(sol["s"], [-1.2, -1.6], atol=1e-14) and abs(sol["value"] + 10.0) < 1e-13
+    # brute force on circles / disc, n = 2, rotated indefinite / singular / definite matrices
+    th = np.linspace(0.0, 2 * np.pi, 200001)
+    for ang in (0.0, 0.3, 1.1):
+        c, s_ = np.cos(ang), np.sin(ang)
+        Q = np.array([[c, -s_], [s_, c]])
+        for sig in ([-1.0, 2.0], [0.0, 1.0], [1.0, 3.0], [-2.0, -1.0], [-1.0, -1.0]):
+            A = Q @ np.diag(sig) @ Q.T
+            for b in (Q[:, 1] * 0.7, Q[:, 0] * 0.3 + Q[:, 1], np.zeros(2), 1e-9 * Q[:, 0]):
+                for Delta in (0.1, 1.0, 10.0):
+                    sol = more_sorensen(A, b, Delta)
+                    best = 0.0                                  # s = 0
+                    for rad in np.linspace(0.0, Delta, 41)[1:]:
+                        P = rad * np.stack([np.cos(th), np.sin(th)])
+                        vals = b @ P + 0.5 * np.einsum("ik,ij,jk->k", P, A, P)
+                        best = min(best, float(vals.min()))
+                    scale = np.linalg.norm(b) * Delta + max(abs(np.array(sig))) * Delta ** 2
+                    assert sol["value"] <= best + 1e-12 * scale, (ang, sig, b, Delta, sol["value"], best)
+                    assert sol["value"] >= best - 2e-3 * scale, (ang, sig, b, Delta, sol["value"], best)
+                    cert = certificate(A, b, Delta, sol)
+                    assert max(cert.values()) < 1e-12, cert
+    # Cauchy point: H = I, g = e1, Delta = 0.5 -> boundary, value -0.5 + 0.125
+    cp = cauchy_point(np.eye(2), np.array([1.0, 0.0]), None, None, 0.5)
+    assert cp["kind"] == "boundary" and abs(cp["value"] + 0.375) < 1e-15
+    cp = cauchy_point(np.diag([-1.0, 1.0]), np.array([1.0, 0.0]), None, np.diag([4.0, 1.0]), 2.0)
+    assert cp["kind"] == "negcurve" and np.allclose(cp["z"], [-1.0, 0.0])
+    # dogleg polyline distance
+    d, leg, t = dogleg_path_distance(np.array([0.5, 0.0]), np.array([1.0, 0.0]), np.array([1.0, 1.0]))
+    assert d == 0.0 and leg == "leg1" and t == 0.5
+    d, leg, t = dogleg_path_distance(np.array([1.0, 0.25]), np.array([1.0, 0.0]), np.array([1.0, 1.0]))
+    assert d == 0.0 and leg == "leg2" and t == 0.25
+    print("trs_ref selftest ok")
+
+
+if __name__ == "__main__":
+    _selftest()
